@@ -64,6 +64,22 @@ func (k Keeper) GetPromoterByAddress(ctx sdk.Context, address string) (val types
 	return val, true
 }
 
+// GetAllPromoterByAddress returns all promoter by address entries
+func (k Keeper) GetAllPromoterByAddress(ctx sdk.Context) (list []types.PromoterByAddress) {
+	store := k.getPromoterByAddressStore(ctx)
+	iterator := sdk.KVStorePrefixIterator(store, []byte{})
+
+	defer iterator.Close()
+
+	for ; iterator.Valid(); iterator.Next() {
+		var val types.PromoterByAddress
+		k.cdc.MustUnmarshal(iterator.Value(), &val)
+		list = append(list, val)
+	}
+
+	return
+}
+
 // IsPromoter returns true if there is a promoter with address
 func (k Keeper) IsPromoter(ctx sdk.Context, address string) bool {
 	store := k.getPromoterByAddressStore(ctx)
